@@ -12,7 +12,7 @@ from checks.c01 import judge_cases
 PID = "C15"
 FRAGS = {"quick": [("zoo", 3), ("zoo2", 4), ("locloop", 7), ("mix", 3), ("do", 3), ("case", 3), ("late", 4)],
          "thorough": [("zoo", 4), ("zoo2", 5), ("locloop", 8), ("mix", 4), ("do", 4), ("case", 4), ("cond", 4), ("begin", 4), ("def", 5), ("late", 5)]}
-RANDOM = {"quick": (1500, 40), "thorough": (20000, 50)}
+RANDOM = {"quick": (1500, 40), "thorough": (8000, 50)}
 MODES = [("eval", ""), ("eval", "rec"), ("compile_run", ""), ("compile_run", "rec"), ("compile_step", ""), ("compile_step", "rec")]
 
 CFG = """SPECIFICATION Spec
